@@ -89,12 +89,14 @@ Definition parse_amount (s : bytes) : option Z :=
     (* opt(preceded('.', map_opt(digit1, len <= 8))) : on failure nothing is consumed *)
     let '(dec, rest) :=
       match r with
-      | 46 :: r' =>
-          let (d, r'') := span is_digit r' in
-          if is_nil d then (None, r)
-          else if (8 <? length d)%nat then (None, r)
-          else (Some d, r'')
-      | _ => (None, r)
+      | c :: r' =>
+          if c =? 46 then
+            let (d, r'') := span is_digit r' in
+            if is_nil d then (None, r)
+            else if (8 <? length d)%nat then (None, r)
+            else (Some d, r'')
+          else (None, r)
+      | [] => (None, r)
       end in
     if negb (is_nil rest) then None (* all_consuming *)
     else
@@ -328,7 +330,7 @@ Section WithAddresses.
              (label message : option bytes) (other : list (bytes * bytes)) : outcome payment perr :=
     if (match memo with Some _ => true | None => false end) && negb (can_memo a)
     then Err PTransparentMemo
-    else if t_only a && (match amount with Some 0 => true | _ => false end)
+    else if t_only a && (match amount with Some a => a =? 0 | None => false end)
     then Err PZeroTransparent
     else Ok (mkPayment a amount memo label message other).
 
@@ -428,8 +430,8 @@ Section WithAddresses.
       let (n, r2) := span is_namechar r1 in
       let name := a ++ n in
       match r2 with
-      | 46 :: d :: r3 =>
-          if is_nonzero_digit d then
+      | c :: d :: r3 =>
+          if (c =? 46) && is_nonzero_digit d then
             let (ds, r4) := span is_digit r3 in
             if (3 <? length ds)%nat then Some (name, None, r2) else Some (name, Some (d :: ds), r4)
           else Some (name, None, r2)
@@ -462,13 +464,15 @@ Section WithAddresses.
     | None => None
     | Some (name, iopt, r) =>
         match r with
-        | 61 :: r' =>
-            let (value, r'') := span is_qchar r' in
-            match to_indexed_param name iopt value with
-            | None => None
-            | Some ip => Some (ip, r'')
-            end
-        | _ => None
+        | c :: r' =>
+            if c =? 61 then
+              let (value, r'') := span is_qchar r' in
+              match to_indexed_param name iopt value with
+              | None => None
+              | Some ip => Some (ip, r'')
+              end
+            else None
+        | [] => None
         end
     end.
 
@@ -480,12 +484,14 @@ Section WithAddresses.
     | O => (acc, i)
     | S f =>
         match i with
-        | 38 :: i1 =>
-            match zcashparam i1 with
-            | None => (acc, i)
-            | Some (p, i2) => params_tail f i2 (acc ++ [p])
-            end
-        | _ => (acc, i)
+        | c :: i1 =>
+            if c =? 38 then
+              match zcashparam i1 with
+              | None => (acc, i)
+              | Some (p, i2) => params_tail f i2 (acc ++ [p])
+              end
+            else (acc, i)
+        | [] => (acc, i)
         end
     end.
   Definition params_list (i : bytes) : list (param * Z) * bytes :=
@@ -538,8 +544,9 @@ Section WithAddresses.
         let oxs :=
           match rest with
           | [] => Some []
-          | 63 :: r => let (xs, r') := params_list r in if is_nil r' then Some xs else None
-          | _ => None
+          | c :: r =>
+              if c =? 63 then let (xs, r') := params_list r in if is_nil r' then Some xs else None
+              else None
           end in
         match oxs with
         | None => Err EParse
@@ -568,13 +575,20 @@ Section WithAddresses.
     | p :: r => (i, p) :: enumerate_from (i + 1) r
     end.
 
+  (** additional-parameter names accepted by [new]: a [paramname] with no index suffix that is
+      not one of RESERVED_PARAM_NAMES *)
+  Definition other_name_ok (n : bytes) : bool :=
+    negb (existsb (bytes_eqb n) [s_address; s_amount; s_memo; s_label; s_message])
+    && match indexed_name n with Some (_, None, []) => true | _ => false end.
+
   Definition request_new (ps : list payment) : outcome request zerr :=
-    if (9999 <? length ps)%nat then Err (ETooMany (Z.of_nat (length ps)))
+    if 9999 <? Z.of_nat (length ps) then Err (ETooMany (Z.of_nat (length ps)))
+    else if negb (forallb (fun p => forallb (fun nv => other_name_ok (fst nv)) (p_other p)) ps) then Err EParse
     else
       let r := enumerate_from 0 ps in
       if is_nil r then Ok r
       else match from_uri (to_uri r) with
-           | Ok r' => if request_eqb r' r then Ok r else Err EParse
+           | Ok _ => Ok r
            | Err e => Err e
            | Panic => Panic
            end.
